@@ -298,7 +298,7 @@ func (r *rwRT) ruleTermPanicSites() {
 		}
 		return out
 	}
-	in.OnCall = wrapOnCall(in.OnCall, func(cc *CallCtx) []Answer {
+	typeEnv := func(cc *CallCtx) []Answer {
 		if cc.Fn == nil {
 			return nil
 		}
@@ -327,7 +327,9 @@ func (r *rwRT) ruleTermPanicSites() {
 			return []Answer{{Ret: []AV{userPanic}, NoEvent: true}}
 		}
 		return nil
-	})
+	}
+	in.OnCall = wrapOnCall(in.OnCall, typeEnv)
+	st0 := st.clone()
 	outs := in.Run(st, fn, []AV{Sym{Name: "r", NN: true}, stmt}, nil)
 	r.account(in)
 	bad := ""
@@ -377,7 +379,32 @@ func (r *rwRT) ruleTermPanicSites() {
 		}
 	}
 	if judged == 0 {
-		undecided("yieldRewriter.isTerminating does not construct the termination checker through mkTerminationChecker")
+		// the checker is not an object built by mkTerminationChecker: the verdict itself is observed. The entry point is
+		// evaluated through (no function of the package answered for), on the same statement and under the same oracle;
+		// its answer must be "not terminating" on every path.
+		in2 := r.interp(rwConfig{root: fn, inlineAll: true, astWalk: true, noOracles: true})
+		in2.MaxDepth, in2.MaxRecur, in2.MaxVisits = 40, 12, 8
+		in2.OnCall = wrapOnCall(in2.OnCall, typeEnv)
+		outs = in2.Run(st0, fn, []AV{Sym{Name: "r", NN: true}, stmt}, nil)
+		r.account(in2)
+		for _, o := range outs {
+			if o.Panicked {
+				continue
+			}
+			judged++
+			if len(o.Ret) != 1 {
+				bad = "no answer on a path: " + pathSummary(o)
+				continue
+			}
+			if b, known := asBool(o.Ret[0]); !known {
+				bad = "the verdict for a call of a user-declared function named panic is not determined: " + canon(o.Ret[0]) + ": " + pathSummary(o)
+			} else if b {
+				bad = "a call of a function that is merely spelled panic (declared by the package itself) counts as terminating: the closing `return Normal()` is dropped after it and the thunk does not build"
+			}
+		}
+		if judged == 0 {
+			undecided("yieldRewriter.isTerminating has no path that answers for a call statement")
+		}
 	}
 	c.check(bad == "" && len(outs) > 0, "RW.TERM", "panic call sites are calls of the builtin", pos,
 		"a user-declared function named panic is not a terminating call", bad)
